@@ -121,7 +121,10 @@ def compare(g, probes, path, sig, recs, pid):
         gone = sorted(set(range(1, st["nid"])) - {e["id"] for e in st["obs"]})
         if sorted(r["destroyed"]) != gone:
             msg = "step %d (%s): observers destroyed so far %s, model says %s" % (i, name, sorted(r["destroyed"]), gone)
-            c06 = c06 or msg
+            if name == "Shrink":
+                c13 = c13 or msg    # a shrink that destroys (or fails to keep) an observer: "never removes a live subscription"
+            else:
+                c06 = c06 or msg
     if crash is not None:
         msg = "sanitizer / signal during a valid history: " + " ".join(crash.get("stderr", "").split())[:300]
         # attribute to the property whose operation was running: the step after the last observation
